@@ -47,6 +47,14 @@ DIRS = {"lebedev": "lebedev", "spherical": "spherical_design", "maxdet": "maxdet
         "ahrens_beylkin": "ahrens_beylkin"}
 
 
+def _dev(a, b):
+    """max |a - b|, or a shape note when the arrays do not even have the same shape"""
+    a, b = np.asarray(a), np.asarray(b)
+    if a.shape != b.shape:
+        return f"shape {a.shape} vs {b.shape}"
+    return float(np.max(np.abs(a - b))) if a.size else 0.0
+
+
 def _h(a):
     """Content digest of an array (exact bytes)."""
     import hashlib
@@ -224,7 +232,7 @@ class WorldA:
                 if not np.array_equal(sph, ref):
                     self._bad(f"A:Sph:{cfg[1]}:differs-from-fresh-world",
                               "convert_cartesian_to_spherical() differs from a fresh world",
-                              max_abs=float(np.max(np.abs(sph - ref))))
+                              max_abs=_dev(sph, ref))
                 obs = _h(sph)
             elif kind == "AngInt":
                 g = self.slots["g"]
@@ -265,12 +273,12 @@ class WorldA:
                 self._bad(f"A:slot:{md['cfg'][0]}:{md['cfg'][1]}:points-differ",
                           f"{md['cfg']} (never edited by the caller) has points differing from the "
                           f"shipped data / fresh-world grid after {ev}",
-                          max_abs=float(np.max(np.abs(obj.points - rp))))
+                          max_abs=_dev(obj.points, rp))
             if not md["editW"] and not np.array_equal(obj.weights, rw):
                 self._bad(f"A:slot:{md['cfg'][0]}:{md['cfg'][1]}:weights-differ",
                           f"{md['cfg']} (never edited by the caller) has weights differing from the "
                           f"shipped data / fresh-world grid after {ev}",
-                          max_abs=float(np.max(np.abs(obj.weights - rw))))
+                          max_abs=_dev(obj.weights, rw))
         # (i) probes for every (method, degree)
         with warnings.catch_warnings():
             warnings.simplefilter("ignore")
@@ -282,12 +290,12 @@ class WorldA:
                         self._bad(f"A:probe:{mth}:points-differ",
                                   f"AngularGrid(degree={dg}, method={mth}) built after this history has "
                                   f"points differing from the shipped data",
-                                  max_abs=float(np.max(np.abs(pr.points - rp))))
+                                  max_abs=_dev(pr.points, rp))
                     if not np.array_equal(pr.weights, rw):
                         self._bad(f"A:probe:{mth}:weights-differ",
                                   f"AngularGrid(degree={dg}, method={mth}) built after this history has "
                                   f"weights differing from the shipped data",
-                                  max_abs=float(np.max(np.abs(pr.weights - rw))))
+                                  max_abs=_dev(pr.weights, rw))
 
     # -- canonical key
     def canon(self):
@@ -309,7 +317,7 @@ class WorldA:
                     rp, rw0 = shipped(mth, dg)
                     rw = rw0 / FOUR_PI if mth in ("lebedev", "spherical") else rw0
                     key.append((mth, dg, True, bool(np.array_equal(cp, rp)),
-                                bool(np.allclose(cw, rw, rtol=1e-15, atol=0))))
+                                bool(np.shape(cw) == np.shape(rw) and np.allclose(cw, rw, rtol=1e-15, atol=0))))
                 else:
                     key.append((mth, dg, False, True, True))
         for sl in ("a", "b", "g", "s", "m"):
@@ -549,18 +557,22 @@ class WorldC:
 
 # ------------------------------------------------------------------------------ driver
 def run(ctx):
+    # Every PAIR of methods is explored with degrees both methods support, so that two caches that
+    # are confused with each other (keyed by degree only) necessarily collide.  (The cross-method
+    # pairs were added after seeded change C19-C was missed.)
+    pairs = [
+        dict(methods=("lebedev", "maxdet"), degrees=(3, 5)),
+        dict(methods=("maxdet", "ahrens_beylkin"), degrees=(14, 19)),
+        dict(methods=("lebedev", "spherical"), degrees=(3, 5)),
+        dict(methods=("spherical", "ahrens_beylkin"), degrees=(19, 23)),
+        dict(methods=("lebedev", "ahrens_beylkin"), degrees=(19, 23)),
+        dict(methods=("spherical", "maxdet"), degrees=(3, 5)),
+    ]
     if ctx.thorough:
-        a_runs = [
-            dict(methods=("lebedev", "maxdet"), degrees=(3, 5), depth=5),
-            dict(methods=("spherical", "ahrens_beylkin"), degrees=(3, 5), depth=4),
-            dict(methods=("lebedev", "ahrens_beylkin"), degrees=(5, 9), depth=4),
-        ]
+        a_runs = [dict(p, depth=5 if i == 0 else 3) for i, p in enumerate(pairs)]
         depth_b, depth_c = 5, 6
     else:
-        a_runs = [
-            dict(methods=("lebedev", "maxdet"), degrees=(3, 5), depth=3),
-            dict(methods=("spherical", "ahrens_beylkin"), degrees=(3, 5), depth=2),
-        ]
+        a_runs = [dict(p, depth=3 if i == 0 else 2, extra=(i == 0)) for i, p in enumerate(pairs)]
         depth_b, depth_c = 4, 5
     for r in a_runs:
         depth = r.pop("depth")
